@@ -7,6 +7,11 @@ CLAIMS = {
   'design_ref': '§4 C15',
  },
 }
+CLAIMS['C11'] = {
+  'text': "Function contracts on the verbatim bodies of cvm::memory_stream (has_remaining, expand_output_buffer, read/write_object<T>, read/write_vector<T> for 8-, 4- and 1-byte T) discharged by CBMC dfcc for every buffer length, position, state and length prefix: no uncaught exception, no read or write outside the data, damaged or truncated vectors set failbit, and lemma harnesses over the contracts show that what is written is read back byte for byte. Crash consistency of file replacement and text-state parsing are not decided here.",
+  'note': "Trusted: CBMC C++ front end + stub std::vector (growth beyond the frame's capacity modelled as fresh allocation); memcpy by assumed contract (specs/common/memcpy_contract.h); class template instead of member templates. n/d: std::string/colvarvalue specialisations, backup_file/rename ordering, text state.",
+  'design_ref': '§4 C11',
+}
 NOT_APPLICABLE = {
  'C12': "quantifies over thread schedules; sequential contract verification (CBMC dfcc) cannot express it and the C++ front end has no OpenMP (DESIGN.md §4 C12)",
 }
